@@ -350,7 +350,21 @@ def eval_family(run, rules, modes, rule_text, chunk=1500, flagged=None, finish=T
         cases, r = run.mc("MC_Eval", {"KV_MODE": mode}, out_name="cases-%s.ndjson" % mode)
         obs = run.drive(cases, obs_name="obs-%s.ndjson" % mode)
         run.postprocess(obs, evalparse.postprocess)
-        flagged += run.judge("Trace_Eval", obs, env={"KV_RULES": rules}, chunk=chunk)
+        got = run.judge("Trace_Eval", obs, env={"KV_RULES": rules + (",X." if mode == "total" else "")}, chunk=chunk)
+        # X.* rules measure the conformance of specification modules that go beyond the listed properties
+        # (KWarn: the warnings); they are recorded in the evidence, never a verdict
+        for ev, rl in got:
+            real = [x for x in rl if not x.startswith("X.")]
+            for x in rl:
+                if x.startswith("X."):
+                    k = "beyond_properties_" + x[2:].lower() + "_divergences"
+                    run.extra[k] = run.extra.get(k, 0) + 1
+                    run.extra.setdefault(k + "_sample", {"text": ev["case"].get("text", "")[:300], "now": ev["case"].get("now")})
+            if real:
+                flagged.append((ev, real))
+        if mode == "total":
+            run.extra.setdefault("beyond_properties_warn_divergences", 0)
+            run.extra["beyond_properties_warn_events"] = run.extra.get("beyond_properties_warn_events", 0) + vlib.count_lines(obs)
     if not finish:
         return flagged
     return vlib.finish(run, flagged, rule_text=rule_text)
@@ -393,8 +407,22 @@ def c14(run):
         "summaries: `klog json` tags arrays and `klog tags --values --count --decimal` totals", chunk=3000)
 
 
+def config_drift(run):
+    """beyond the listed properties: the configuration file reader against KConfig (drift metric, never a verdict)"""
+    cases, r = run.mc("MC_Config", {}, out_name="cases-config.ndjson")
+    obs = run.drive(cases, obs_name="obs-config.ndjson")
+    got = run.judge("Trace_Config", obs, chunk=20000)
+    run.extra["beyond_properties_config_events"] = vlib.count_lines(obs)
+    run.extra["beyond_properties_config_divergences"] = len(got)
+    if got:
+        ev, rl = got[0]
+        run.extra["beyond_properties_config_sample"] = {"rules": rl, "cfg": ev["case"].get("cfg", "")[:200], "env": ev["case"].get("env"),
+                                                        "observed": vlib.truncate(ev.get("obs", {}), 400)}
+
+
 @check("C18", "Trace_Eval")
 def c18(run):
+    config_drift(run)
     return eval_family(run, "C18", ["style", "report"], "files with Unicode summaries/tags, negative and large totals x 9 commands x schemes "
         "{dark, light, basic, no_colour, NO_COLOR, --no-style}: stripped outputs identical, unstyled outputs free of escapes, equal row widths", chunk=200)
 
